@@ -593,7 +593,10 @@ def run_cases(ctx: Ctx, cases, props, label="random", known_sig=None):
         if pred_fail and not all(f["prop"] == "C17" for f in pred_fail):
             continue
         diffs = []
+        lookup_defect = any(f["prop"] == "C17" for f in pred_fail)
         for i, (m1, i1) in enumerate(zip(mo, im["results"])):
+            if lookup_defect and case["ops"][i][0] in ("assessSelf", "assess") and str(i1.get("err", "")).startswith("other:IndexError"):
+                continue    # assess indexes the same un-indexable choice map: the defect already reported above
             dd = diff_op(m1, i1)
             if dd:
                 diffs.append({"op": i, "kind": case["ops"][i][0], "diff": dd})
